@@ -560,4 +560,3 @@ func c15(c *fw.Ctx) {
 	c.Floor("decode_hint_honoured", 30)
 	c.Floor("single_byte_code_points_covered", 3000)
 }
-
